@@ -152,4 +152,24 @@ def duplicate_conjuncts(ctx, repo, scope=("cu2qu/", "qu2cu/", "pens/")):
     ctx.info["boolops_scanned"] = n
 
 
-ALL = [accept_guard, parallel_lists, duplicate_conjuncts]
+ALL = [accept_guard, parallel_lists, duplicate_conjuncts]  # current_point appended below
+
+
+def current_point(ctx, repo):
+    ctx.rule("CURPT", "the start point handed to the next cubic is the last point of the segment just emitted: every update of prev_on_curve / current_pts takes index [-1] of that segment's points", floor=4)
+    mod = repo.mod("pens/cu2quPen.py")
+    f = mod.func("Cu2QuPointPen._flushContour")
+    for st in walk_no_nested(f.node):
+        if isinstance(st, ast.Assign) and norm(st.targets[0]) == "prev_on_curve":
+            v = st.value
+            ok = isinstance(v, ast.Subscript) and norm(v.slice) == "0" and isinstance(v.value, ast.Subscript) and norm(v.value.slice) == "-1"
+            ctx.ob("CURPT", f.where, norm(st), ok, "" if ok else "a cubic that follows this segment is converted from a stale start point")
+    for q, fn in sorted(mod.funcs.items()):
+        if not q.startswith("Cu2QuMultiPen."):
+            continue
+        for c in calls_in(fn.node):
+            if norm(c.func) == "current_pts.append":
+                ok = "points[-1]" in norm(c.args[0])
+                ctx.ob("CURPT", fn.where, norm(c), ok)
+
+ALL.append(current_point)
